@@ -16,10 +16,13 @@ type MergeRec struct {
 	Acts        map[ksuid.KSUID][]string // commit id -> Coq actions (data objects only)
 	MergeCases  []string
 	RevertCases []string
+	Parent      map[ksuid.KSUID]ksuid.KSUID
+	CommitIdx   map[ksuid.KSUID]int
 }
 
 func NewMergeRec() *MergeRec {
-	return &MergeRec{ObjIdx: map[ksuid.KSUID]int{}, Acts: map[ksuid.KSUID][]string{}}
+	return &MergeRec{ObjIdx: map[ksuid.KSUID]int{}, Acts: map[ksuid.KSUID][]string{},
+		Parent: map[ksuid.KSUID]ksuid.KSUID{}, CommitIdx: map[ksuid.KSUID]int{}}
 }
 
 func (m *MergeRec) idx(id ksuid.KSUID) int {
@@ -28,6 +31,19 @@ func (m *MergeRec) idx(id ksuid.KSUID) int {
 	}
 	i := len(m.ObjIdx) + 1
 	m.ObjIdx[id] = i
+	return i
+}
+
+// Cidx numbers commits from 1 (0 is the nil commit).
+func (m *MergeRec) Cidx(id ksuid.KSUID) int {
+	if id == ksuid.Nil {
+		return 0
+	}
+	if i, ok := m.CommitIdx[id]; ok {
+		return i
+	}
+	i := len(m.CommitIdx) + 1
+	m.CommitIdx[id] = i
 	return i
 }
 
@@ -47,6 +63,9 @@ func (m *MergeRec) set(s map[ksuid.KSUID]bool) string {
 }
 
 // commitActs reads the action log of one commit (Add/Delete of data objects, in order).
+// CommitActs is the exported form of commitActs.
+func (lr *LakeRun) CommitActs(commit ksuid.KSUID) ([]string, error) { return lr.commitActs(commit) }
+
 func (lr *LakeRun) commitActs(commit ksuid.KSUID) ([]string, error) {
 	m := lr.Merge
 	if a, ok := m.Acts[commit]; ok {
@@ -59,6 +78,17 @@ func (lr *LakeRun) commitActs(commit ksuid.KSUID) ([]string, error) {
 	fresh := map[ksuid.KSUID][]string{}
 	for _, v := range vals {
 		tn := zson.FormatType(v.Type())
+		if strings.HasPrefix(tn, "commits.Commit=") {
+			idv, pv := v.Deref("id"), v.Deref("parent")
+			if idv != nil && pv != nil {
+				id, err1 := ksuid.FromBytes(idv.Bytes())
+				par, err2 := ksuid.FromBytes(pv.Bytes())
+				if err1 == nil && err2 == nil {
+					m.Parent[id] = par
+				}
+			}
+			continue
+		}
 		isAdd := strings.HasPrefix(tn, "commits.Add=")
 		isDel := strings.HasPrefix(tn, "commits.Delete=")
 		if !isAdd && !isDel {
